@@ -31,6 +31,7 @@ type c10Op struct {
 	Rem   []int     `json:"rem,omitempty"`
 	KV    [][2]int  `json:"kv,omitempty"`
 	St    int       `json:"st,omitempty"`
+	Own   [][2]int  `json:"own,omitempty"` // metadata the operation carries itself (set before it gets an id)
 }
 type c10Input struct {
 	Ops []c10Op `json:"ops"`
@@ -89,6 +90,11 @@ func genC10Op(r *Rand, i int, small bool) c10Op {
 			op.K, op.Txt, op.Files = "create", 1+r.Intn(nt), ints(4, r.Intn(2))
 		}
 	}
+	if r.Chance(1, 4) {
+		for j, n := 0, 1+r.Intn(2); j < n; j++ {
+			op.Own = append(op.Own, [2]int{r.Intn(3), 4 + r.Intn(3)})
+		}
+	}
 	return op
 }
 
@@ -132,6 +138,7 @@ type c10Obs struct {
 	Timeline []c10Item  `json:"timeline"`
 	Ops      []string   `json:"ops"`
 	Meta     [][]string `json:"meta"`
+	MetaGet  [][]string `json:"meta_get"` // the same through the per-key accessor GetMetadata
 	Same     bool       `json:"repeatable"`
 	Incr     bool       `json:"incremental"`
 }
@@ -258,6 +265,10 @@ func (c10Driver) Run(raw json.RawMessage) Case {
 			return Case{Skip: "unknown op kind " + o.K}
 		}
 		tags["op:"+o.K] = true
+		for _, p := range o.Own {
+			op.SetMetadata(fmt.Sprintf("key%d", p[0]), fmt.Sprintf("val%d", p[1]))
+			tags["own-metadata"] = true
+		}
 		b.Append(op)
 		ops = append(ops, op)
 		ids = append(ids, string(op.Id()))
@@ -307,6 +318,26 @@ func (c10Driver) Run(raw json.RawMessage) Case {
 			}
 			sort.Strings(kv)
 			o.Meta = append(o.Meta, kv)
+			var kg []string
+			for k := 0; k < 3; k++ {
+				key := fmt.Sprintf("key%d", k)
+				if v, ok := op.GetMetadata(key); ok {
+					kg = append(kg, key+"="+v)
+				}
+			}
+			if len(s.Operations) > 0 && op == s.Operations[0] {
+				// the create operation's metadata is also exposed by the snapshot
+				for k := 0; k < 3; k++ {
+					key := fmt.Sprintf("key%d", k)
+					v1, ok1 := op.GetMetadata(key)
+					v2, ok2 := s.GetCreateMetadata(key)
+					if ok1 != ok2 || v1 != v2 {
+						kg = append(kg, "create-metadata-differs="+key)
+					}
+				}
+			}
+			sort.Strings(kg)
+			o.MetaGet = append(o.MetaGet, kg)
 		}
 		return o
 	}
@@ -454,20 +485,44 @@ func (c10Driver) Run(raw json.RawMessage) Case {
 			tl = append(tl, fmt.Sprintf("(false, %d%%N)", h))
 		}
 	}
-	var opl, meta []string
-	for i, id := range s1.Ops {
-		opl = append(opl, opid(id))
+	var opl, meta, metaGet, own []string
+	kvTerm := func(kvs []string) string {
 		var ps []string
-		for _, kv := range s1.Meta[i] {
+		for _, kv := range kvs {
 			var k, v int
-			fmt.Sscanf(kv, "key%d=val%d", &k, &v)
+			if n, _ := fmt.Sscanf(kv, "key%d=val%d", &k, &v); n != 2 {
+				ps = append(ps, "(0, 0)") // an accessor disagreement: no model value is 0
+				continue
+			}
 			ps = append(ps, fmt.Sprintf("(%d, %d)", k+1, v+1))
 		}
-		meta = append(meta, "["+strings.Join(ps, "; ")+"]%N")
+		return "[" + strings.Join(ps, "; ") + "]%N"
 	}
-	obs := fmt.Sprintf("mkobs10 %s %d %d %s %s %s %s %s %s %s %s %s", opid(s1.ID), s1.Status, txt(s1.Title), coqList(coms), nlist(lbs),
-		ints(s1.Actors), ints(s1.Parts), coqList(tl), coqList(opl), coqList(meta), coqBool(s1.Same), coqBool(s1.Incr))
-	term := fmt.Sprintf("mkcase10 %s (%s)", coqList(mops), obs)
+	for i, id := range s1.Ops {
+		opl = append(opl, opid(id))
+		meta = append(meta, kvTerm(s1.Meta[i]))
+		metaGet = append(metaGet, kvTerm(s1.MetaGet[i]))
+	}
+	for _, o := range in.Ops {
+		// a Go map: a repeated key keeps its last value
+		kv := map[int]int{}
+		for _, p := range o.Own {
+			kv[p[0]] = p[1]
+		}
+		var ks []int
+		for k := range kv {
+			ks = append(ks, k)
+		}
+		sort.Ints(ks)
+		var ps []string
+		for _, k := range ks {
+			ps = append(ps, fmt.Sprintf("(%d, %d)", k+1, kv[k]+1))
+		}
+		own = append(own, "["+strings.Join(ps, "; ")+"]%N")
+	}
+	obs := fmt.Sprintf("mkobs10 %s %d %d %s %s %s %s %s %s %s %s %s %s", opid(s1.ID), s1.Status, txt(s1.Title), coqList(coms), nlist(lbs),
+		ints(s1.Actors), ints(s1.Parts), coqList(tl), coqList(opl), coqList(meta), coqList(metaGet), coqBool(s1.Same), coqBool(s1.Incr))
+	term := fmt.Sprintf("mkcase10 %s %s (%s)", coqList(mops), coqList(own), obs)
 	var tg []string
 	for t := range tags {
 		tg = append(tg, t)
